@@ -200,6 +200,30 @@ def run(ctx):
                     ctx.count('tag=' + tag)
                     ctx.count('status=%s' % ('0' if st == 0 else 'cap'))
                     oracle(ctx, ml, b, x0, tol, mi, x, st, res, cbs, unchanged, case)
+                    # the optional outputs are independent of each other: history only / callback only / neither /
+                    # return_info=False give the same iterate, status, callback sequence and history
+                    if tag in ('below', 'wide') and variant in ('plain', 'x0', 'zero-rhs'):
+                        for which in ('residuals-only', 'callback-only', 'neither', 'no-info'):
+                            r2, c2 = [], []
+                            kw = dict(x0=None if x0 is None else x0.copy(), tol=tol, maxiter=mi, cycle=cycle, cycles_per_level=cpl)
+                            if which == 'residuals-only':
+                                kw['residuals'] = r2
+                            if which == 'callback-only':
+                                kw['callback'] = lambda xk: c2.append(np.array(xk, copy=True))
+                            try:
+                                out = ml.solve(b, return_info=(which != 'no-info'), **kw)
+                            except Exception as e:   # noqa
+                                ctx.fail('solve/%s/raises' % which, repr(e), dict(case, outputs=which))
+                                continue
+                            x2, st2 = (out if which != 'no-info' else (out, st))
+                            ctx.count('outputs:' + which)
+                            if st2 != st or not np.array_equal(np.ravel(x2), np.ravel(x)):
+                                ctx.fail('solve/%s/result-differs' % which, 'status %r vs %r, |dx| = %.3g' % (st2, st, np.linalg.norm(np.ravel(x2) - np.ravel(x))),
+                                         dict(case, outputs=which))
+                            if which == 'residuals-only' and [float(v) for v in r2] != [float(v) for v in res]:
+                                ctx.fail('solve/residuals-only/history-differs', '%s vs %s' % (r2[:4], res[:4]), dict(case, outputs=which))
+                            if which == 'callback-only' and (len(c2) != len(cbs) or any(not np.array_equal(u, v) for u, v in zip(c2, cbs))):
+                                ctx.fail('solve/callback-only/callbacks-differ', '%d vs %d callbacks' % (len(c2), len(cbs)), dict(case, outputs=which))
                     cases.append('(%s, %s, %s, %d%%nat, (%d%%nat, %s, %d%%nat))' % (
                         cq.fll(full), cq.fl(normb_raw), cq.fl(tol), mi, int(st), cq.fll(res), len(cbs)))
                     meta.append((case, dict(status=int(st), residuals=res, callbacks=len(cbs), pass1=full)))
